@@ -281,7 +281,8 @@ class Check:
             pa = parse_assumptions(out)
             self.axioms = pa["axioms"]
             self.closed = pa["closed"]
-            illegal = [a for a in self.axioms if a not in ALLOWED_AXIOMS]
+            illegal = [a for a in self.axioms if a not in ALLOWED_AXIOMS
+                       and not any(w.endswith('*') and a.startswith(w[:-1]) for w in ALLOWED_AXIOMS)]
             self.obligation("axioms-whitelisted", not illegal, "not in whitelist: %s" % illegal)
             bad = source_gate()
             self.obligation("no-admitted-no-axiom-gate", not bad, "; ".join(bad[:5]))
